@@ -139,6 +139,10 @@ type WTx struct {
 	BigEndianCksum bool // only honoured when this transaction writes the WAL header
 	// SyncHeader issues an fsync after the WAL header is written (synchronous=FULL).
 	Sync bool
+	// CloseAfter: the connection does not release its locks one by one after the commit frame and the wal-index
+	// update but closes its files (a process that exits, or is killed, right after COMMIT): the kernel's release of
+	// the -shm descriptor drops every shm lock at once, WRITE included.
+	CloseAfter bool
 	// FromWAL rewrites page 1 with rollback-mode header bytes (not a legal direct switch; unused by default).
 }
 
@@ -721,6 +725,11 @@ func (c *Conn) RunWTx(tx WTx, cur *oracle.Image) (res WTxResult) {
 	res.Intended = next
 	// The deferred endWrite() releases WRITE; SQLite's COMMIT returns after that.
 	c.ackOnEndWrite = true
+	if tx.CloseAfter {
+		c.Close() // wal, shm (drops WRITE and the read lock), db
+		c.walState.readLock = -1
+		c.Acked, c.ackOnEndWrite = true, false
+	}
 	return
 }
 
